@@ -192,6 +192,87 @@ def h_destripe(H):
             S.explore(body)
 
 
+def replay_kfilt(vals, oid):
+    """kfilt without gain control (lagc None or 0) is linear and does not depend on the amplitude scale; with it, out == filtered(agc data) * gain"""
+    rng = np.random.default_rng(4)
+    bad = []
+    for nx, pad in ((40, 0), (48, 12), (96, 60)):
+        x = rng.standard_normal((nx, 300))
+        kw = dict(ntr_pad=pad, ntr_tap=0, butter_kwargs={"N": 3, "Wn": 0.1, "btype": "highpass"})
+        ref = V.kfilt(x.copy(), lagc=None, **kw)
+        sos = scipy.signal.butter(N=3, Wn=0.1, btype="highpass", output="sos")
+        xp = np.r_[np.flipud(x[:pad]), x, np.flipud(x[-pad:])] if pad else x
+        want = scipy.signal.sosfiltfilt(sos, xp, axis=0)
+        want = want[pad:-pad] if pad else want
+        if not np.allclose(ref, want, atol=1e-10):
+            bad.append({"what": "lagc=None: not the mirrored-pad spatial high-pass of the input", "nx": nx, "ntr_pad": pad})
+        for off in (0, 0.0):
+            y = V.kfilt(x.copy(), lagc=off, **kw)
+            if not np.allclose(y, ref, atol=1e-10):
+                bad.append({"what": f"lagc={off!r} (no gain control) differs from lagc=None", "nx": nx, "ntr_pad": pad, "max_diff": float(np.abs(y - ref).max())})
+    return {"failed": bool(bad), "cases": bad[:4]}
+
+
+@harness(PROPERTY, "kfilt_body", functions=["ibldsp.voltage:kfilt"], replay=replay_kfilt,
+         clause="spatial high-pass along channels with mirrored padding; gain control only when a window length is given (its product with the gain restored at the end)")
+def h_kfilt(H):
+    for mode in ("off_none", "off_zero", "on"):
+        for padded in (False, True):
+            S = H.session(f"kfilt.{mode}.pad{padded}")
+
+            def body(it, mode=mode, padded=padded):
+                nx, nt, pad = z3.Ints("nx nt ntr_pad")
+                it.ctx.assume(z3.And(nx >= 1, nt >= 1))
+                if padded:
+                    it.ctx.assume(z3.And(pad >= 1, pad <= nx))
+                x = A.fresh_array("x", "float64", (nx, nt))
+                x0 = x.snapshot()
+                lagc = {"off_none": None, "off_zero": 0, "on": SV(z3.Int("lagc"))}[mode]
+                if mode == "on":
+                    it.ctx.assume(term(lagc) >= 1)
+                log = []
+
+                def agc_summary(it_, a, k):
+                    xx = A.as_sarr(a[0] if a else k.get("x"))
+                    y, g = A.fresh_array("agc_data", "float64", xx.shape), A.fresh_array("agc_gain", "float64", xx.shape)
+                    log.append({"name": "agc", "in": xx.snapshot(), "shape": xx.shape, "wl": k.get("wl", a[1] if len(a) > 1 else None), "data": y.snapshot(), "gain": g.snapshot()})
+                    return y, g
+
+                def filt_summary(it_, a, k):
+                    xx = A.as_sarr(a[1])
+                    out = A.fresh_array("spatial_hp", "float64", xx.shape)
+                    log.append({"name": "filt", "in": xx.snapshot(), "shape": xx.shape, "axis": k.get("axis", -1), "out": out.snapshot()})
+                    return out
+                it.session.contracts[V.agc] = agc_summary
+                it.session.contracts[scipy.signal.butter] = lambda it_, a, k: ("SOS", dict(k))
+                it.session.contracts[scipy.signal.sosfiltfilt] = filt_summary
+                out = run_function(it, V.kfilt, [x], {"ntr_pad": SV(pad) if padded else 0, "ntr_tap": 0, "lagc": lagc})
+                tag = f"{mode}.pad{padded}"
+                names = [e["name"] for e in log]
+                want = (["agc"] if mode == "on" else []) + ["filt"]
+                it.ctx.oblige(f"kfilt.gain_control_only_with_a_window.{tag}", z3.BoolVal(names == want), "post",
+                              "lagc None / 0 means no gain control (documented): the data go to the spatial filter as they are" if mode != "on" else "gain control, then one spatial filter")
+                if names != want:
+                    return
+                f = log[-1]
+                p = pad if padded else z3.IntVal(0)
+                src = (lambda r, t: log[0]["data"]((r, t))) if mode == "on" else (lambda r, t: x0((r, t)))     # noqa
+                r, t = z3.Ints("r t")
+                it.ctx.oblige(f"kfilt.filter_along_channels.{tag}", z3.BoolVal(f["axis"] == 0), "post")
+                if mode == "on":
+                    it.ctx.oblige(f"kfilt.agc_sees_the_input.{tag}", z3.And(term(log[0]["wl"]) == term(lagc), A.forall([r, t], lambda: z3.Implies(z3.And(r >= 0, r < nx, t >= 0, t < nt), log[0]["in"]((r, t)) == x0((r, t))))), "post", assume=False)
+                mirrored = lambda rr, tt: z3.If(rr < p, src(p - 1 - rr, tt), z3.If(rr < p + nx, src(rr - p, tt), src(nx - 1 - (rr - p - nx), tt)))     # noqa
+                it.ctx.oblige(f"kfilt.mirrored_padding.{tag}", z3.And(A.T(f["shape"][0]) == nx + 2 * p, A.T(f["shape"][1]) == nt,
+                              A.forall([r, t], lambda: z3.Implies(z3.And(r >= 0, r < nx + 2 * p, t >= 0, t < nt), f["in"]((r, t)) == mirrored(r, t)))), "post",
+                              "the array filtered along channels is [first ntr_pad rows reversed; the data; last ntr_pad rows reversed]", assume=False)
+                gain = (lambda rr, tt: log[0]["gain"]((rr, tt))) if mode == "on" else (lambda rr, tt: z3.RealVal(1))     # noqa
+                it.ctx.oblige(f"kfilt.output_rows.{tag}", z3.And(z3.BoolVal(out.ndim == 2), A.T(out.shape[0]) == nx, A.T(out.shape[1]) == nt,
+                              A.forall([r, t], lambda: z3.Implies(z3.And(r >= 0, r < nx, t >= 0, t < nt), out.read((r, t)) == f["out"]((r + p, t)) * gain(r, t)))), "post",
+                              "the padding rows are dropped and the gain (1 without gain control) is multiplied back", assume=False)
+                it.ctx.oblige(f"kfilt.input_untouched.{tag}", A.forall([r, t], lambda: z3.Implies(z3.And(r >= 0, r < nx, t >= 0, t < nt), x.read((r, t)) == x0((r, t)))), "post", assume=False)
+            S.explore(body)
+
+
 @harness(PROPERTY, "agc_product", functions=["ibldsp.voltage:agc"], clause="gain control returns data and gain whose product is the input")
 def h_agc(H):
     S = H.session("agc")
@@ -306,6 +387,9 @@ def b_native(B):
         for kf in (False, True):
             att, _ = _stripe_case(rng, version, kf, labels=labels)
             B.case(("stripe_with_bad_channels", str(version), kf), att <= -40, detail={"worst_channel_attenuation_dB": round(float(att), 1)})
+    # the spatial filter with its gain control switched off (lagc=0, as waveform extraction calls it, and lagc=None)
+    r = replay_kfilt({}, "")
+    B.case("kfilt_without_gain_control", not r["failed"], detail=r)
     bad = []
     for scale in (1.0, 1e-5, 1e-9, 1e-12):
         x = rng.standard_normal((20, 500)) * scale
